@@ -121,6 +121,39 @@ def run(chk):
     wp = params(w)
     ok = (f"if{wp[1]}:{wp[3]}={wp[3]}[~_np.isnan({wp[3]})]" in src.replace("\n", "") and f"return{wp[2]}({wp[3]})if{wp[3]}.size>0else_np.nan" in src)
     chk.ob("C12-R3", "series._conversions._aggregate_within_data", ok, "missing values are dropped only when discard_missing; empty group -> NaN", m.loc(w))
+    # the whole reducer by finite evaluation: select picks CALENDAR positions of the group, then missing values are discarded (if asked)
+    try:
+        NAN = fin.FinVec.NAN
+        bad, n_cases = None, 0
+        for group in ([1, 2, 3], [NAN, 2, 3], [1, NAN, 3], [NAN, NAN, NAN], [NAN, NAN, 3], [5]):
+            for select in (None, [0], [1], [len(group) - 1], [0, len(group) - 1], list(range(len(group)))):
+                if select is not None and max(select) >= len(group):
+                    continue
+                for discard in (False, True):
+                    try:
+                        got = fin.run_function(w, {wp[0]: select, wp[1]: discard, wp[2]: (lambda v: ("F", tuple(v.items))), wp[3]: fin.FinVec(group)},
+                                               funcs=dict(fin.VECTOR_FUNCS), env={"_np.nan": NAN})
+                    except fin.Raised as ex:
+                        got = ("RAISES", str(ex))
+                    n_cases += 1
+                    picked = list(group) if select is None else [group[k] for k in select]
+                    if discard:
+                        picked = [x for x in picked if x != NAN]
+                    want = ("F", tuple(picked)) if picked else NAN
+                    if got != want:
+                        bad = (group, select, discard, got, want)
+                        break
+                if bad:
+                    break
+            if bad:
+                break
+        chk.ob("C12-R3", "series._conversions._aggregate_within_data[select, then discard]", bad is None,
+               f"{n_cases} cases (groups with leading / interior / all missing members x selections x discard_missing): the method receives exactly the selected calendar "
+               "positions, minus the missing ones when discarding; an empty result is NaN" if bad is None else
+               f"group {bad[0]}, select={bad[1]}, discard_missing={bad[2]}: method applied to {bad[3]} (want {bad[4]}): `select` must index positions inside the "
+               "low-frequency period, not positions among the non-missing values", m.loc(w), sure=True)
+    except (fin.NotFinite, TypeError) as ex:
+        chk.undecided("C12-R3", "series._conversions._aggregate_within_data[select, then discard]", f"not evaluable: {type(ex).__name__}: {ex}", m.loc(w))
     # select: positions inside the one-dimensional group; a tuple used as an index addresses axes instead
     sel_p, grp_p = wp[0], wp[3]
     subs = [n for n in walk_no_nested(w) if isinstance(n, ast.Subscript) and unparse(n.value) == grp_p and unparse(n.slice) == sel_p]
@@ -369,6 +402,43 @@ def rule_r8(chk):
                "F = K'K and C = K'c for the criterion sum(((x[t] - rho*x[t-1] - const)/sigma[t])**2) (T = 5, exact fractions)" if ok else f"got {got}", m.loc(fs["_create_basic_system_matrices"]), sure=True)
     except (fin.NotFinite, TypeError, KeyError, ZeroDivisionError) as ex:
         chk.undecided("C12-R8", "series.arip._create_basic_system_matrices", f"{type(ex).__name__}: {ex}", m.loc(fs["_create_basic_system_matrices"]))
+    # which low periods are fully determined by targets (their aggregation constraint is then dropped): ALL members targeted
+    dfl = m.func("_detect_full_low_periods")
+    chk.saw(m, "_detect_full_low_periods")
+    NAN = fin.FinVec.NAN
+
+    def _el(fn):
+        return lambda x: fin.FinMat([[fn(v) for v in r] for r in x.rows]) if isinstance(x, fin.FinMat) else fin.FinVec([fn(v) for v in x.items])
+
+    def _reduce(fn):
+        def red(x, axis=None):
+            if not isinstance(x, fin.FinMat) or axis != 1:
+                raise fin.NotFinite("reduction other than along rows")
+            return fin.FinVec([fn(r) for r in x.rows])
+        return red
+
+    class _M(fin.FinMat):
+        def __invert__(self):
+            return _M([[not v for v in r] for r in self.rows])
+    vfuncs = {"_np.isfinite": _el(lambda v: v != NAN), "_np.isnan": _el(lambda v: v == NAN), "_np.all": _reduce(all), "_np.any": _reduce(any),
+              "_np.where": lambda v: ([i for i, b in enumerate(v.items) if b],), "_np.nonzero": lambda v: ([i for i, b in enumerate(v.items) if b],),
+              "_np.logical_not": lambda v: ~v}
+    try:
+        bad = None
+        cases = [([1, 2, NAN, NAN, 5, NAN], 2, [0]), ([NAN] * 6, 2, []), ([1, 2, 3, 4, 5, 6], 3, [0, 1]), ([NAN, 2, 3, NAN, NAN, NAN, 7, 8, 9], 3, [2]), ([1, NAN], 1, [0])]
+        for data, nw_, want in cases:
+            vec = fin.FinMat([[v] for v in data]); vec.one_d = True
+            got = fin.run_function(dfl, dict(zip(params(dfl), (vec, nw_))), funcs=vfuncs, env={})
+            got = list(got[0]) if isinstance(got, tuple) else list(got)
+            if got != want:
+                bad = (data, nw_, got, want)
+                break
+        chk.ob("C12-R8", "series.arip._detect_full_low_periods", bad is None,
+               "a low period is 'fully targeted' only when every one of its high periods has a target (5 cases: full, partial, none)" if bad is None else
+               f"targets {bad[0]} with {bad[1]} high periods per low period: fully targeted low periods {bad[2]} (want {bad[3]}): a partly targeted period loses its "
+               "aggregation constraint", m.loc(dfl), sure=True)
+    except (fin.NotFinite, TypeError, AttributeError) as ex:
+        chk.undecided("C12-R8", "series.arip._detect_full_low_periods", f"not evaluable: {type(ex).__name__}: {ex}", m.loc(dfl))
     # stacking order: columns (multipliers, targets) and rows (aggregations, targets) in the same order of constraints
     d = m.func("disaggregate_arip_data")
     chk.saw(m, "disaggregate_arip_data")
